@@ -132,15 +132,15 @@ def discharge(obls, timeout=20, procs=16, seed=0, on_model=None, use_cvc5=True, 
             plan = []
             if not has_quantifier(o.goal):
                 plan.append(('z3:ground', 4))      # cheap first rung: quantifier-free goal from the quantifier-free hypotheses
-            plan.append(('z3', timeout))
+            plan.append(('z3', min(timeout, 10)))      # z3 answers within a second or two when it answers at all; the long rung is last
             if use_cvc5:
-                plan.append(('cvc5', timeout))
+                plan.append(('cvc5', timeout * 3))      # wall-clock (cvc5 has no usable resource limit); it closes what z3's E-matching leaves open
             if retry_timeout:
                 plan.append(('z3:long', retry_timeout))
             h = hints.get(o.id)
             if h == 'open' and not want_hash:
                 # never discharged when the lock was written: one z3 rung only (looks for a refutation); recorded as open, never as proved
-                plan = [('z3', timeout)]
+                plan = [('z3', min(timeout, 10))]
             elif h and any(b == h for b, _ in plan) and plan[0][0] != h:
                 plan = [x for x in plan if x[0] == h] + [x for x in plan if x[0] != h]
         plans[i] = plan
@@ -192,7 +192,7 @@ def discharge(obls, timeout=20, procs=16, seed=0, on_model=None, use_cvc5=True, 
                     running[fd] = (pid, i, t0, tmo, be, buf + chunk)
                     continue
                 done = True
-            elif now - t0 > (tmo * 7 + 30 if be != 'cvc5' else tmo + 8):
+            elif now - t0 > (tmo * 3 + 10 if be != 'cvc5' else tmo + 8):
                 try:
                     os.kill(pid, signal.SIGKILL)
                 except OSError:
